@@ -373,13 +373,40 @@ func (m *MonC17) AfterBlock(w *World, b *BlockCtx) {
 	// an update list it would refuse is reported by the world)
 	m.classes[fmt.Sprintf("vals%d/elig%d", min(len(set), 8), min(len(eligible), 8))] = true
 	w.Probe("c17_update_checked")
+	m.limits(w, b)
+	if w.Viol != nil {
+		return
+	}
 	// candidates beyond the first 100 are removed, never a validator
 	if len(b.Prev.Cands) > 100 || len(b.Cur.Cands) > 100 {
 		w.Probe("c17_over_100_candidates")
 	}
 	if len(b.Cur.Cands) > 100 && uint64(b.Height)%w.Sc.Node.Period == 0 {
-		w.Report("C17", "validator-set", "more-than-100-candidates", fmt.Sprintf("height %d: %d candidates remain after the recalculation", b.Height, len(b.Cur.Cands)), b.Height)
-		return
+		// whoever still ranks beyond the first 100 must have been a validator during this block
+		for _, c := range b.Cur.Cands {
+			if b.Prev.Vals[c.PubKey] != nil {
+				continue
+			}
+			above := 0
+			for _, o := range b.Cur.Cands {
+				if bi(o.TotalBipStake).Cmp(bi(c.TotalBipStake)) > 0 {
+					above++
+				}
+			}
+			if above >= 100 {
+				w.Report("C17", "validator-set", "candidate-beyond-100-kept", fmt.Sprintf("height %d: candidate %d (no validator) ranks behind %d candidates with a larger stake and remains after the recalculation (%d candidates)", b.Height, c.ID, above, len(b.Cur.Cands)), b.Height)
+				return
+			}
+		}
+		nonVal := 0
+		for _, c := range b.Cur.Cands {
+			if b.Prev.Vals[c.PubKey] == nil {
+				nonVal++
+			}
+		}
+		if nonVal > 100 {
+			w.Report("C17", "validator-set", "more-than-100-candidates", fmt.Sprintf("height %d: %d candidates that were no validators remain after the recalculation", b.Height, nonVal), b.Height)
+		}
 	}
 	for _, dc := range b.Cur.Raw.DeletedCandidates {
 		if set[dc.PubKey] != nil {
@@ -388,6 +415,124 @@ func (m *MonC17) AfterBlock(w *World, b *BlockCtx) {
 		}
 	}
 }
+
+// limits checks the 100-candidate and 1000-delegation rules at recalculation blocks.
+func (m *MonC17) limits(w *World, b *BlockCtx) {
+	h := uint64(b.Height)
+	if h%w.Sc.Node.Period != 0 {
+		return
+	}
+	unbondP := types.GetUnbondPeriod()
+	fz := frozenMap(b.Cur)
+	// candidates removed by ranking: all their stakes are unbonding, none of them was a validator
+	for _, pc := range b.Prev.Cands {
+		if b.Cur.candByID(fmt.Sprint(pc.ID)) != nil {
+			continue
+		}
+		if len(b.Prev.Cands)+acceptedOfType(b, byte(transaction.TypeDeclareCandidacy)) <= 100 {
+			w.Report("C17", "validator-set", "candidate-removed-below-limit", fmt.Sprintf("height %d: candidate %d removed although at most %d candidates exist", b.Height, pc.ID, len(b.Prev.Cands)+acceptedOfType(b, byte(transaction.TypeDeclareCandidacy))), b.Height)
+			return
+		}
+		if b.Prev.Vals[pc.PubKey] != nil {
+			w.Report("C17", "validator-set", "validator-removed", fmt.Sprintf("height %d: candidate %d was a validator and was removed by the 100-candidate limit", b.Height, pc.ID), b.Height)
+			return
+		}
+		for _, st := range pc.Stakes {
+			v := bi(st.Value)
+			if v == nil || v.Sign() == 0 {
+				continue
+			}
+			pk := pc.PubKey
+			f := types.FrozenFund{Height: h + unbondP, Address: st.Owner, CandidateKey: &pk, CandidateID: pc.ID, Coin: st.Coin}
+			if got := fz[frozenKey(&f)]; got == nil || got.Cmp(v) < 0 {
+				w.Report("C17", "validator-set", "removed-candidate-stake-not-unbonded", fmt.Sprintf("height %d: candidate %d removed by ranking; stake %s of %s should be unbonding until %d, frozen funds show %v", b.Height, pc.ID, v, st.Owner.String(), h+unbondP, got), b.Height)
+				return
+			}
+		}
+		m.classes["candidate-removed-over-100"] = true
+		w.Probe("c17_candidate_removed_over_100")
+	}
+	// full delegation slots: one incoming delegation against 1000 stakes
+	for _, pc := range b.Prev.Cands {
+		if len(pc.Stakes) < 1000 || len(pc.Updates) != 1 {
+			continue
+		}
+		cc := b.Cur.candByID(fmt.Sprint(pc.ID))
+		if cc == nil {
+			continue
+		}
+		u := pc.Updates[0]
+		if u.Coin != 0 {
+			continue
+		}
+		has := false
+		var minV *big.Int
+		var minOwner types.Address
+		for _, st := range pc.Stakes {
+			if st.Owner == u.Owner && st.Coin == u.Coin {
+				has = true
+			}
+			if v := bi(st.BipValue); st.Coin == 0 && (minV == nil || v.Cmp(minV) < 0) {
+				minV, minOwner = v, st.Owner
+			}
+		}
+		if has || minV == nil || ownerActedAddr(w, b, u.Owner) || ownerActedAddr(w, b, minOwner) {
+			continue
+		}
+		uv := bi(u.Value)
+		inStakes := func(c *types.Candidate, o types.Address) *big.Int {
+			for _, st := range c.Stakes {
+				if st.Owner == o && st.Coin == 0 {
+					return bi(st.Value)
+				}
+			}
+			return nil
+		}
+		wl := func(o types.Address) *big.Int {
+			for _, x := range b.Cur.Raw.Waitlist {
+				if x.Owner == o && x.CandidateID == pc.ID && x.Coin == 0 {
+					return bi(x.Value)
+				}
+			}
+			return nil
+		}
+		if uv.Cmp(minV) >= 0 {
+			// the incoming delegation takes the slot, the smallest goes to the waitlist with its full value
+			if got := inStakes(cc, u.Owner); got == nil || got.Cmp(uv) != 0 {
+				w.Report("C17", "validator-set", "full-slots:incoming-not-staked", fmt.Sprintf("height %d: candidate %d has 1000 stakes (smallest %s); incoming delegation %s of %s should have replaced it, its stake is %v", b.Height, pc.ID, minV, uv, u.Owner.String(), got), b.Height)
+				return
+			}
+			if got := wl(minOwner); got == nil || got.Cmp(minV) < 0 {
+				w.Report("C17", "validator-set", "full-slots:loser-not-in-waitlist", fmt.Sprintf("height %d: candidate %d: the replaced smallest stake %s of %s should be in the waitlist with its full value, waitlist shows %v", b.Height, pc.ID, minV, minOwner.String(), got), b.Height)
+				return
+			}
+			m.classes["full-slots-replaced"] = true
+		} else {
+			if got := wl(u.Owner); got == nil || got.Cmp(uv) < 0 {
+				w.Report("C17", "validator-set", "full-slots:small-incoming-not-in-waitlist", fmt.Sprintf("height %d: candidate %d has 1000 stakes (smallest %s); the smaller incoming delegation %s of %s should be in the waitlist with its full value, waitlist shows %v", b.Height, pc.ID, minV, uv, u.Owner.String(), got), b.Height)
+				return
+			}
+			if got := inStakes(cc, u.Owner); got != nil && got.Sign() > 0 {
+				w.Report("C17", "validator-set", "full-slots:small-incoming-staked", fmt.Sprintf("height %d: candidate %d: incoming delegation %s smaller than the smallest stake %s took a slot", b.Height, pc.ID, uv, minV), b.Height)
+				return
+			}
+			m.classes["full-slots-kept"] = true
+		}
+		w.Probe("c17_full_slots_checked")
+	}
+}
+
+func acceptedOfType(b *BlockCtx, t byte) int {
+	n := 0
+	for _, m := range b.Metas {
+		if m.Code == 0 && m.Type == t {
+			n++
+		}
+	}
+	return n
+}
+
+func ownerActedAddr(w *World, b *BlockCtx, a types.Address) bool { return authSet(w, b)[a] }
 
 // ---------------- C18: misbehaviour punished exactly and only once ----------------
 
@@ -790,14 +935,38 @@ func init() {
 	register(&PropSpec{ID: "C17", Level: "exploration",
 		Rule: "histories of declarations, delegations, unbonds, status switches, punishments and recalculations; after every block that returns validator updates the set exported is compared with the ranking computed from the exported candidates (online, >= 1000 base coin, best 64; ties free), powers with floor(stake*1e8/sum) min 1, and the update list is applied to the real tendermint ValidatorSet; distinct non-trivial case = distinct (validators, eligible) size class",
 		Make: func(r *rand.Rand, seed int64, chain int, tier string) *Scenario {
-			return baseScenario("C17", r, seed, chain, tier, stakeProfile(), func(g *GenCfg, n *NodeCfg) {
+			limits := r.Intn(10) == 0
+			sc := baseScenario("C17", r, seed, chain, tier, stakeProfile(), func(g *GenCfg, n *NodeCfg) {
 				g.NVal = 1 + r.Intn(7)
 				g.NCand = 2 + r.Intn(8)
+				if limits {
+					// more than 100 candidates, and a candidate whose 1000 delegation slots are (almost) full
+					g.NVal = 3 + r.Intn(3)
+					g.NCand = 99 + r.Intn(6)
+					g.ManyDeleg = 994 + r.Intn(6)
+					n.Period = 6
+				}
 			})
+			if limits {
+				if len(sc.Blocks) > 30 {
+					sc.Blocks = sc.Blocks[:30]
+				}
+				// delegations to candidate 0 from accounts without a stake there, around the smallest stake (10..1009 coins)
+				for i := range sc.Blocks {
+					if i%6 == 2 {
+						amt := []uint64{5, 10, 11, 500, 2000}[r.Intn(5)]
+						sc.Blocks[i].Ops = append(sc.Blocks[i].Ops, Op{K: "delegate", A: r.Intn(sc.Gen.NAcct), X: []int64{0, 0, 0, 0, 0, 0, 0}, V: []Amt{{Mode: 0, M: amt, E: 18}}})
+					}
+					if i%6 == 4 && r.Intn(2) == 0 {
+						sc.Blocks[i].Ops = append(sc.Blocks[i].Ops, Op{K: "declare", A: r.Intn(sc.Gen.NAcct), X: []int64{int64(r.Intn(40)), 0, int64(r.Intn(10)), int64(r.Intn(100)), 0, 0, 0}, V: []Amt{{Mode: 0, M: uint64(100 + r.Intn(5000)), E: 18}}})
+					}
+				}
+			}
+			return sc
 		},
 		Monitors: func(sc *Scenario) []Monitor { return []Monitor{&MonC17{}} },
 		Distinct: func(w *World) []string { return classesOf(w) },
-		ExpectProbes: []string{"c17_update_checked"},
+		ExpectProbes: []string{"c17_update_checked", "c17_candidate_removed_over_100", "c17_full_slots_checked"},
 	})
 	register(&PropSpec{ID: "C18", Level: "exploration",
 		Rule: "vote sets with absence streaks around the 12-of-24 limit, whole-set outages and byzantine evidence against current, offline, dropped and unknown validators (also repeated and on payout blocks); reference window / jail / 5% slash model from the statement compared with exported candidates, frozen funds, validator list and later SetCandidateOnline outcomes; distinct non-trivial case = distinct punishment class",
